@@ -304,6 +304,7 @@ def run_case(case):
         res["impl"] = {"cls": type(e).__name__, "tx": isinstance(e, TextXError),
                        "mro": [c.__name__ for c in type(e).__mro__], "msg": msg,
                        "message_attr": getattr(e, "message", None) if isinstance(e, TextXError) else None,
+                       "cause": type(e.__cause__).__name__ if e.__cause__ is not None else None,
                        "line": getattr(e, "line", None), "col": getattr(e, "col", None), "where": where}
         del tb
     try:
